@@ -191,8 +191,11 @@ impl PrometheusBuilder {
     {
         use std::str::FromStr;
 
+        // A bare IP address (no prefix length) is accepted as well, and stands for the single host.
         let address = IpNet::from_str(address.as_ref())
+            .or_else(|e| IpAddr::from_str(address.as_ref()).map(IpNet::from).map_err(|_| e))
             .map_err(|e| BuildError::InvalidAllowlistAddress(e.to_string()))?;
+
         self.allowed_addresses.get_or_insert(vec![]).push(address);
 
         Ok(self)
